@@ -14,7 +14,23 @@ func (in *Interp) recordNondet(kind string, t *Term) {
 
 func (in *Interp) harnessIntrinsic(g *Goroutine, name string, c *callCtx) (Value, int) {
 	a := c.args
+	if in.cfg.Concrete != nil && strings.HasPrefix(name, "nondet") {
+		return in.concreteNondet(name, a), irDone
+	}
 	switch name {
+	case "verifObserve":
+		label, _ := a[0].(*StrV).Concrete()
+		bs := in.bytesOf(a[1])
+		var sb strings.Builder
+		for _, b := range bs {
+			if !b.IsConst() {
+				sb.WriteString("??")
+				continue
+			}
+			fmt.Fprintf(&sb, "%02x", b.Val)
+		}
+		in.observed = append(in.observed, label+"="+sb.String())
+		return nil, irDone
 	case "nondetBool":
 		v := in.freshVar("b", 0)
 		in.recordNondet("bool", v)
@@ -193,4 +209,96 @@ func (in *Interp) harnessIntrinsic(g *Goroutine, name string, c *callCtx) (Value
 		return v, r
 	}
 	panic(engineErr("unknown harness intrinsic " + name))
+}
+
+type NativeRec struct {
+	Kind  string   `json:"kind"`
+	Value int64    `json:"value"`
+	Vals  []uint64 `json:"vals"`
+}
+
+type NativeWitness struct {
+	Params  map[string]int `json:"params"`
+	Nondets []NativeRec    `json:"nondets"`
+	Canary  bool           `json:"canary"`
+}
+
+func (in *Interp) concreteNondet(name string, a []Value) Value {
+	var r NativeRec
+	if in.concPos < len(in.cfg.Concrete.Nondets) {
+		r = in.cfg.Concrete.Nondets[in.concPos]
+		in.concPos++
+	}
+	scalar := func() uint64 {
+		if len(r.Vals) > 0 {
+			return r.Vals[0]
+		}
+		return uint64(r.Value)
+	}
+	switch name {
+	case "nondetBool":
+		return BoolC(scalar() != 0)
+	case "nondetByte", "nondetUint8":
+		return Const(8, scalar())
+	case "nondetInt", "nondetInt64", "nondetUint64", "nondetUint":
+		return Const(64, scalar())
+	case "nondetInt32", "nondetUint32", "nondetRune":
+		return Const(32, scalar())
+	case "nondetUint16":
+		return Const(16, scalar())
+	case "nondetLen":
+		mx := in.concreteInt(a[0].(*Term), name)
+		v := int(r.Value)
+		if v > mx {
+			v = mx
+		}
+		return i64(v)
+	case "nondetChoice":
+		n := in.concreteInt(a[0].(*Term), name)
+		v := int(r.Value)
+		if v >= n {
+			v = n - 1
+		}
+		return i64(v)
+	case "nondetBytes":
+		n := in.concreteInt(a[0].(*Term), name)
+		spare := in.concreteInt(a[1].(*Term), name)
+		sl := in.makeSlice(types.Typ[types.Uint8], n, n+spare)
+		for i := 0; i < n+spare; i++ {
+			var v uint64
+			if i < len(r.Vals) {
+				v = r.Vals[i]
+			}
+			sl.Cells[i].V = Const(8, v)
+		}
+		if n+spare == 0 {
+			return &SliceV{Cells: []*Cell{}, Len: 0}
+		}
+		return sl
+	case "nondetString":
+		n := in.concreteInt(a[0].(*Term), name)
+		s := &StrV{B: make([]*Term, n)}
+		for i := 0; i < n; i++ {
+			var v uint64
+			if i < len(r.Vals) {
+				v = r.Vals[i]
+			}
+			s.B[i] = Const(8, v)
+		}
+		return s
+	}
+	panic(engineErr("concrete nondet " + name))
+}
+
+// nativeWitness converts a violation's model into the witness format read by the native harness API.
+func nativeWitness(params map[string]int, nd []NondetRec, model map[string]uint64, canary bool) NativeWitness {
+	w := NativeWitness{Params: params, Canary: canary}
+	for _, r := range nd {
+		nr := NativeRec{Kind: r.Kind, Value: r.Value}
+		for _, v := range r.Vars {
+			nr.Vals = append(nr.Vals, model[v])
+		}
+		w.Nondets = append(w.Nondets, nr)
+	}
+	return w
 }
